@@ -885,7 +885,6 @@ def _parse_request_range(
     [0]: http://greenbytes.de/tech/webdav/draft-ietf-httpbis-p5-range-latest.html#byte.ranges
     """
     unit, _, value = range_header.partition("=")
-    unit, value = unit.strip(), value.strip()
     if unit != "bytes":
         return None
     start_b, _, end_b = value.partition("-")
@@ -920,9 +919,12 @@ def _get_content_range(start: int | None, end: int | None, total: int) -> str:
 
 
 def _int_or_none(val: str) -> int | None:
-    val = val.strip()
     if val == "":
         return None
+    # RFC 9110 first-pos/last-pos/suffix-length are 1*DIGIT: int() alone would
+    # also accept signs, underscores, surrounding whitespace and non-ASCII digits.
+    if not (val.isascii() and val.isdigit()):
+        raise ValueError("invalid byte position")
     return int(val)
 
 
